@@ -47,13 +47,15 @@ def node_inputs(ns: dict) -> list[tuple[str, str]]:
 
 
 def sub_outputs(prog: dict) -> list[str]:
-    """Names a nested program exposes (inner names, declaration order)."""
+    """Names a nested program exposes (inner names, declaration order). Ordering signals stay inside: the result of
+    a nested run never carries them, so the wrapper node does not produce them."""
+    emit_only = sub_emit_only(prog)
     if prog.get("select"):
-        return list(prog["select"])
+        return [s for s in prog["select"] if s not in emit_only]
     outs: list[str] = []
     for ns in prog["nodes"]:
         for _, e in node_outputs(ns):
-            if e not in outs:
+            if e not in outs and e not in emit_only:
                 outs.append(e)
     return outs
 
